@@ -450,4 +450,79 @@ class C10g(Obligation):
         ctx.check(made == [(got[1], got[2])] and values == 'VALUES', 'exactly the package part is imported, with the level of the statement')
 
 
-OBLIGATIONS = [C10a, C10b, C10c, C10d, C10e, C10f, C10g]
+class C10h(Obligation):
+    id = 'C10.h'
+    title = 'helper-side module search: finders are asked in sys.meta_path order, a frozen spec is never taken (top-level or sub-module), the first usable spec wins'
+    pattern = 'P5 decision table (sys.meta_path finders are stubs with symbolic answers)'
+    assumptions = (
+        'sys.meta_path holds F<=3 finders, the last one is importlib.machinery.PathFinder; every finder answers '
+        'symbolically: no find_spec attribute / None / frozen spec / spec with loader / namespace spec; '
+        '_find_module_py33 is a recording stub',
+    )
+
+    def configs(self, tier):
+        return [dict(F=f) for f in (1, 2, 3)]
+
+    def scenario(self, ctx, cfg):
+        F = cfg['F']
+        is_global = ctx.flag('is_global_search')
+        has_path = ctx.flag('search_path_given')
+        path = ['/pkg/dir'] if has_path else None
+        answers = [ctx.choice('finder%d_answer' % i, 5) for i in range(F)]   # 0 old-style 1 None 2 frozen 3 loader 4 namespace
+        asked = []
+        finders = []
+        real_pf = jfunctions.importlib.machinery.PathFinder
+
+        def make(i):
+            ans = answers[i]
+
+            def find_spec(string, p=None):
+                asked.append((i, p))
+                if ans == 1:
+                    return None
+                if ans == 2:
+                    return Obj(origin='frozen', loader='FROZEN-LOADER-%d' % i, has_location=False)
+                if ans == 3:
+                    return Obj(origin='/x/%d.py' % i, loader='LOADER-%d' % i, has_location=True)
+                return Obj(origin=None, loader=None, has_location=False,
+                           submodule_search_locations=Obj(_path=['/ns/%d' % i]))
+            if i == F - 1:
+                pf = Obj(tag='PathFinder') if ans == 0 else Obj(tag='PathFinder', find_spec=find_spec)
+                return pf
+            return Obj(tag='finder%d' % i) if ans == 0 else Obj(tag='finder%d' % i, find_spec=find_spec)
+        for i in range(F):
+            finders.append(make(i))
+        fake_importlib = Obj(machinery=Obj(PathFinder=finders[-1]), util=jfunctions.importlib.util)
+        ctx.patch(jfunctions, 'importlib', fake_importlib)
+        ctx.patch(jfunctions, 'sys', Obj(meta_path=finders))
+        ctx.patch(jfunctions, '_find_module_py33', lambda string, path=None, loader=None, *a, **k: ('py33', path, loader))
+        ctx.force(jfunctions._find_module)
+        out = ctx.call(jfunctions._find_module, 'name', path, 'full.name', is_global)
+        ctx.check(out.exc is None, 'never raises')
+        if out.exc is not None:
+            return
+        # reference
+        exp_asked = []
+        result = None
+        for i in range(F):
+            if answers[i] == 0:
+                continue
+            exp_asked.append((i, None if (is_global and i != F - 1) else path))
+            if answers[i] in (1, 2):
+                continue
+            if answers[i] == 3:
+                result = ('py33', path, 'LOADER-%d' % i)
+            else:
+                result = 'namespace'
+            break
+        if result is None:
+            result = ('py33', path, None)
+        ctx.check(asked == exp_asked, 'finders are asked in order; only the path finder gets the search path of a top-level search')
+        if result == 'namespace':
+            ctx.check(isinstance(out.value, tuple) and out.value[1] is True and not isinstance(out.value[0], str),
+                      'a namespace spec is reported as an implicit namespace package')
+        else:
+            ctx.check(out.value == result, 'the loader of the first usable (non-frozen) spec is used; a frozen spec never')
+
+
+OBLIGATIONS = [C10a, C10b, C10c, C10d, C10e, C10f, C10g, C10h]
